@@ -281,6 +281,13 @@ func Gen(r *simcore.Rand, prop string) *Plan {
 				rules = r.Range(rules, RAmsterdam)
 			}
 		}
+		if eff := EffectiveRules(rules, g.m.World()); eff != rules {
+			if prop == "C15" {
+				// cannot reach Amsterdam from here: start over with a state built under later rules
+				return Gen(r, prop)
+			}
+			rules = eff
+		}
 		blk := Block{Rules: rules, CopyAt: -1, Prefetch: r.Bool(0.4)}
 		ntx := r.Range(0, 5)
 		if r.Bool(0.8) && ntx == 0 {
